@@ -130,19 +130,20 @@ SPEC = dict(
     ],
     level_text="Theorems for every message encode accepts (it refuses exactly those exceeding the 16-bit length field) over all 23 "
                "attributes, every key length and fingerprint on/off: decode(encode m) = view m (strings through QString::fromUtf8, "
-               "identity for well-formed UTF-8 without a leading BOM); MI = the code's HMAC of the protected bytes, proved equal to RFC 2104 HMAC for keys of "
-               "every length; FP = bitwise CRC-32 ^ 0x5354554e with the table regenerated from the source and proved equal to the "
-               "bitwise definition; for every packet: accepted with MI under a key => HMAC verified, accepted at FP => CRC verified, "
-               "accepted => every attribute header and value inside the packet. Single-bit corruption, by case analysis over every bit "
-               "position of an encoded message: a flip in the header, the attributes or the MESSAGE-INTEGRITY attribute that is accepted "
-               "with integrity verified is an explicit HMAC forgery (no hypothesis), hence rejected by the authenticated decode (decode + "
-               "MESSAGE-INTEGRITY present, the gate ICE applies since f41aa68) under the one named hypothesis NotAForgery; a flip behind "
-               "MESSAGE-INTEGRITY yields a rejection or the same message (no hypothesis); nothing is assumed about CRC-32. Recorded "
-               "defects with theorems and replays: plain decode() does not require MESSAGE-INTEGRITY under a key, so a flipped length bit "
-               "that makes an attribute swallow exactly MI(+FP) is accepted by it (requiring it inside decode would reject TURN Data "
-               "indications); a leading U+FEFF in a string is dropped by every Qt 5 fromUtf8. Repaired in /repo, witnesses replayed "
-               "first on every run: HMAC for keys > 64 bytes, other key accepted, attribute length beyond the buffer, oversized message "
-               "encoded with wrapped lengths, reservation token padded with uninitialised memory, string cut at an embedded U+0000.",
+               "identity for well-formed UTF-8 without a leading BOM); MI = the code's HMAC of the protected bytes, proved equal to "
+               "RFC 2104 HMAC for keys of every length; FP = bitwise CRC-32 ^ 0x5354554e with the table regenerated from the source and "
+               "proved equal to the bitwise definition; for every packet: accepted with MI under a key => HMAC verified, accepted at FP "
+               "=> CRC verified, accepted => every attribute header and value inside the packet. Single-bit corruption, by case analysis "
+               "over every bit position of an encoded message: tamper_rejected - for Request/Response messages decode() itself rejects "
+               "every flip in the header, the attributes and the MESSAGE-INTEGRITY attribute, the one hypothesis being the named "
+               "NotAForgery (tamper_verified_is_forgery states the same without it, as an explicit forgery); a flip behind "
+               "MESSAGE-INTEGRITY yields a rejection or the same message (no hypothesis); for every class the authenticated decode "
+               "(decode + MESSAGE-INTEGRITY present, ICE's gate) rejects; nothing is assumed about CRC-32. Recorded defects with theorems "
+               "and replays: for classes Error/Indication decode() must accept a packet without MESSAGE-INTEGRITY (RFC 5389/5766), so a "
+               "flipped length bit that makes an attribute swallow exactly MI(+FP) is accepted for them; a leading U+FEFF in a string is "
+               "dropped by every Qt 5 fromUtf8. Repaired in /repo, witnesses replayed first on every run: HMAC for keys > 64 bytes, "
+               "other key accepted, attribute length beyond the buffer, oversized message encoded with wrapped lengths, reservation "
+               "token padded with uninitialised memory, string cut at U+0000, Request/Response accepted without MESSAGE-INTEGRITY.",
     level_note="Proved about the hand-written model over translator-generated table/constants; model-to-code tie is differential "
                "(systematic + seeded random, not exhaustive). 'Never crashes / reads out of bounds on arbitrary bytes' is a runtime "
                "statement: decode is total in Lean, the C++ is run on 1.2e4 (quick) / 1e5 (thorough) arbitrary packets plus ~7e5 / 6e6 "
